@@ -143,6 +143,10 @@ def obligations(tier, seed):
         obs.append(make("sel-exact", src, two, [other], ["Hello"], [0]))
         obs.append(make("sel-both", src, three, [other], ["two", "ONE"], [0, 1]))
         obs.append(make("sel-none", src, two, [other], ["NOSUCH"], []))
+        dup = [S("GAME", 4, "ml"), S("DATA", 6, "ml"), S("GAME", 9, "ml")]
+        obs.append(make("dup-all", src, dup, [other]))
+        obs.append(make("dup-sel1", src, dup, [other], ["game"], [0, 2]))
+        obs.append(make("dup-sel2", src, dup, [other], ["GAME", "DATA"], [0, 1, 2]))
         obs.append(make_tobin("one", src, one, False))
         obs.append(make_tobin("big", src, [S("BIG", 600, "ml")], False))
         obs.append(make_tobin("two", src, two, True))
